@@ -286,8 +286,9 @@ def dispatch(ctx, fi, R):
   ok = len(b) == 1 and norm_text(b[0]) == '%s[%s.instrument] = True' % (SUS, EV)
   ctx.ob('BRANCH/on', fi, b[0], ok, 'pedal down sets the flag' if ok else 'pedal down does more/less than setting the instrument\'s flag')
   b = got['_SUSTAIN_OFF'].body
-  ok = bool(b) and norm_text(b[0]) == '%s[%s.instrument] = False' % (SUS, EV)
-  ctx.ob('BRANCH/off-flag', fi, b[0], ok, 'pedal up clears the flag' if ok else 'pedal up does not clear the instrument\'s flag')
+  flag = [x for x in b if norm_text(x) == '%s[%s.instrument] = False' % (SUS, EV)]     # at the top level of the branch, wherever it stands
+  ok = len(flag) == 1
+  ctx.ob('BRANCH/off-flag', fi, flag[0] if flag else b[0], ok, 'pedal up clears the flag' if ok else 'pedal up does not clear the instrument\'s flag')
   inner = next((s for s in b if isinstance(s, ast.For)), None)
   ok = False
   if inner is not None and inner.body and isinstance(inner.body[0], ast.If):
